@@ -164,7 +164,7 @@ void h_movetime(void) {
 //   Search::Search, setStrength, setWhiteContempt, EngineControl::getStrength/getMaxNPS/getWhiteContempt -> no-ops / arbitrary
 //   MoveGen::pseudoLegalMoves<wtm>, removeIllegal -> leave an arbitrary number 0..256 of legal moves
 //   MoveList::filter             -> keeps an arbitrary subset (any size <= current size)
-//   EngineControl::setupPosition -> no-op (pos.whiteMove is set by the harness); Position copy-ctor/dtor of its by-value argument -> no-ops
+//   EngineControl::setupPosition -> installs the new position's side to move (before it, pos holds the previous search's side); Position copy-ctor/dtor of its by-value argument -> no-ops
 //   EngineMainThread::waitStop / waitOptionsSet / startSearch -> no-ops (startSearch records depth/ponder/infinite)
 // =====================================================================================================
 struct TLCall { int soft, hard, esp; S64 startTime; };
@@ -185,7 +185,9 @@ void model_pseudoLegal_w(const Position& p, MoveList& m) { m.size = symLegal; }
 void model_pseudoLegal_b(const Position& p, MoveList& m) { m.size = symLegal; }
 void model_removeIllegal(Position& p, MoveList& m) { }
 void model_filter(MoveList* m, const std::vector<Move>& sm) { if (symFiltered <= m->size) m->size = symFiltered; }
-void model_setupPosition(EngineControl* e, Position p, const std::vector<Move>& m) { }
+// the new position arrives with setupPosition: before it, ec.pos still holds the PREVIOUS search's position (arbitrary side to move)
+static bool gNewWhite;
+void model_setupPosition(EngineControl* e, Position p, const std::vector<Move>& m) { e->pos.whiteMove = gNewWhite; }
 void model_PositionCopy(Position* dst, const Position& src) { }   // the copy only feeds the setupPosition stub
 void model_PositionDtor(Position* p) { }
 void model_waitStop(EngineMainThread* t) { }
@@ -231,6 +233,7 @@ static EngineControl& controlEnv(const GoInput& g) {
     ec.sc._M_ptr = nullptr; ec.sc._M_refcount._M_pi = nullptr;
     pointVec(ec.searchMoves, ecSmStore, 0, 4);             // empty, with capacity (as after an earlier 'go searchmoves')
     setEnv(ec, g);
+    gNewWhite = g.white; ec.pos.whiteMove = nondet_bool();   // side to move of the previous search's position: arbitrary
     // analyseMode off: the eval-print branch of startThread (iostream formatting) is outside; 'infinite' is covered
     UciParams::ownBook._M_ptr = chk(0, nondet_bool());
     UciParams::analyseMode._M_ptr = chk(1, false);
